@@ -2,7 +2,9 @@ package main
 
 import (
 	"fmt"
+	"os"
 	"sort"
+	"strings"
 
 	"bngvet/internal/cexec"
 	"bngvet/internal/cfront"
@@ -17,6 +19,9 @@ func runProg(tu *cfront.TU, name string, paths bool) {
 	x := cexec.New(tu, mode)
 	if paths {
 		for _, o := range []string{"update_stats", "update_stat", "log_violation", "log_nat_event", "update_qos_stats"} {
+			x.Opaque[o] = true
+		}
+		for _, o := range strings.Fields(os.Getenv("OPAQUE")) {
 			x.Opaque[o] = true
 		}
 	}
